@@ -15,6 +15,13 @@ CLAIMED = {
  'C10': dict(engine = 'symx', technique = 'symbolic execution of real drange/date_range/dt_bump with z3 (+cvc5) over a Gregorian-calendar theory and a validated rrule contract stub; counterexample replay',
              text = 'For every start instant in 1900-2300 and every span inside the stated bounds (either direction) the solver decides that the returned list starts at t0, each element is the previous one plus the bump, stays within the endpoints and stops only when the next element would pass t1; int n == timedelta(n) == "nd"; business-day bumps list every k-th weekday; equal endpoints give [t0]; wrong-direction and zero bumps raise ValueError.',
              note = 'Trusted: z3/cvc5, CPython, proxy classes; dateutil.rrule is replaced by a contract stub validated against the real rrule on a grid each run (monthly recurrences only from day <= 28). The bump size is a per-path concrete value from a fixed set (n in [-7,7]); list lengths are bounded (see evidence bounds).'),
+
+ 'C04': dict(engine = 'symx', technique = 'symbolic execution of real dt/ymd/num2dt/_ymd with z3 over a Gregorian-calendar theory and a symbolic clock; counterexample replay',
+             text = 'The non-string spellings (datetime, date, (y,m,d[,h,mi,s]), (d,m,y), yyyymmdd int, ordinal, excel serial, small ints as offsets from today, years) and the month/day overflow law are decided for every instant of 1900-2300, every month in [-36,48] and day in [-400,400]. The string spellings of the property are NOT covered (see not-applicable part in DESIGN.md): the claim is partial.',
+             note = 'Trusted: z3/cvc5, CPython, proxy classes, Gregorian theory (validated each run). Outside: every string spelling and the dialect rejection rule (dateutil.parser + regex on a string), numpy/pandas timestamps, float day fractions.'),
+ 'C05': dict(engine = 'symx', technique = 'symbolic execution of real Calendar code (AST-rewritten _drange.py: guarded lists, symbolic dicts) with z3 over ALL holiday subsets of a window at once; validated rrule stub; counterexample replay',
+             text = 'is_bday, adjust f/p/m, add (single-step and indexed path), bdays, add/-add round trip, path agreement, Calendar.drange and the registry are decided for every holiday subset of a 15-day (thorough 22-day) calendar placed anywhere in 1900-2300, every weekend definition, every probe day; verdicts hold for all values in those bounds.',
+             note = 'Trusted: z3/cvc5, CPython, proxies, the AST rewrite (identity on concrete values), rrule contract stub and neighbour lemma (validated each run). Assumes no run of more than 4 consecutive non-business days; |n| <= 3 quick / 6 thorough (statement: 40); the Calendar object is built directly in its documented state except in the registry obligation.'),
 }
 NA = {}
 TODO = 'check not built yet in this session (work in progress); will be decided by symbolic execution of the real code as described in DESIGN.md'
